@@ -23,7 +23,8 @@ RULE += (
     "operations - entered at one step, left several awaits and Values later: resume/pause must alternate and "
     "the scoped value be restored. Unit midstep: a sibling task tries to advance the generator while the "
     "handed-out task is suspended at a later await of its step: RuntimeError every time, the body receives "
-    "what it awaited."
+    "what it awaited. While a handed-out task is uncomputed the generator is also advanced through take_first, "
+    "list_of_generator and a for loop: RuntimeError."
 )
 ASSUMPTIONS = ["generator bodies are deterministic and side-effect free apart from the operation counter"]
 UNIT_TIMEOUT = {"quick": 200, "thorough": 2400}
